@@ -749,7 +749,7 @@ DLLIMPORT int cfg_parse_boolean(const char *s)
 	return CFG_FAIL;
 }
 
-static void cfg_init_defaults(cfg_t *cfg)
+static int cfg_init_defaults(cfg_t *cfg)
 {
 	int i;
 
@@ -839,21 +839,23 @@ static void cfg_init_defaults(cfg_t *cfg)
 					abort();
 				}
 			} else {
+				int rc = CFG_SUCCESS;
+
 				switch (cfg->opts[i].type) {
 				case CFGT_INT:
-					cfg_opt_setnint(&cfg->opts[i], cfg->opts[i].def.number, 0);
+					rc = cfg_opt_setnint(&cfg->opts[i], cfg->opts[i].def.number, 0);
 					break;
 
 				case CFGT_FLOAT:
-					cfg_opt_setnfloat(&cfg->opts[i], cfg->opts[i].def.fpnumber, 0);
+					rc = cfg_opt_setnfloat(&cfg->opts[i], cfg->opts[i].def.fpnumber, 0);
 					break;
 
 				case CFGT_BOOL:
-					cfg_opt_setnbool(&cfg->opts[i], cfg->opts[i].def.boolean, 0);
+					rc = cfg_opt_setnbool(&cfg->opts[i], cfg->opts[i].def.boolean, 0);
 					break;
 
 				case CFGT_STR:
-					cfg_opt_setnstr(&cfg->opts[i], cfg->opts[i].def.string, 0);
+					rc = cfg_opt_setnstr(&cfg->opts[i], cfg->opts[i].def.string, 0);
 					break;
 
 				case CFGT_FUNC:
@@ -864,6 +866,9 @@ static void cfg_init_defaults(cfg_t *cfg)
 					cfg_error(cfg, "internal error in cfg_init_defaults(%s)", cfg->opts[i].name);
 					break;
 				}
+
+				if (rc != CFG_SUCCESS)
+					return CFG_FAIL; /* out of memory, do not hand out half of the defaults */
 			}
 
 			/* The default value should only be returned if no value
@@ -874,10 +879,13 @@ static void cfg_init_defaults(cfg_t *cfg)
 			cfg->opts[i].flags |= CFGF_RESET;
 			cfg->opts[i].flags &= ~CFGF_MODIFIED;
 		} else if (!is_set(CFGF_MULTI, cfg->opts[i].flags)) {
-			cfg_setopt(cfg, &cfg->opts[i], NULL);
+			if (!cfg_setopt(cfg, &cfg->opts[i], NULL))
+				return CFG_FAIL;
 			cfg->opts[i].flags |= CFGF_DEFINIT;
 		}
 	}
+
+	return CFG_SUCCESS;
 }
 
 DLLIMPORT cfg_value_t *cfg_setopt(cfg_t *cfg, cfg_opt_t *opt, const char *value)
@@ -1083,8 +1091,8 @@ DLLIMPORT cfg_value_t *cfg_setopt(cfg_t *cfg, cfg_opt_t *opt, const char *value)
 			}
 			val->section = sec;
 		}
-		if (!is_set(CFGF_DEFINIT, opt->flags))
-			cfg_init_defaults(val->section);
+		if (!is_set(CFGF_DEFINIT, opt->flags) && cfg_init_defaults(val->section) != CFG_SUCCESS)
+			return NULL;
 		break;
 
 	case CFGT_BOOL:
@@ -1921,7 +1929,10 @@ DLLIMPORT cfg_t *cfg_init(cfg_opt_t *opts, cfg_flag_t flags)
 	bindtextdomain(PACKAGE, LOCALEDIR);
 #endif
 
-	cfg_init_defaults(cfg);
+	if (cfg_init_defaults(cfg) != CFG_SUCCESS) {
+		cfg_free(cfg);
+		return NULL;
+	}
 
 	return cfg;
 }
